@@ -297,9 +297,10 @@ func c19Witnesses(u c19Uni) [][]c19Op {
 }
 
 // c19Guard: the call is inside the guards of the theorems, given the rules listed now.
-//   update:     the old rule is not listed (no-op) or the new rule is not listed, and old != new (F08)
-//   updatemany: equal non-zero lengths; the first old rule is not listed (immediate no-op) or the
-//               new rules are pairwise distinct, not listed and none is an old rule of the call (F08)
+//
+//	update:     the old rule is not listed (no-op) or the new rule is not listed, and old != new (F08)
+//	updatemany: equal non-zero lengths; the first old rule is not listed (immediate no-op) or the
+//	            new rules are pairwise distinct, not listed and none is an old rule of the call (F08)
 func c19Guard(listed [][]string, o c19Op) bool {
 	switch o.Kind {
 	case "update":
@@ -354,7 +355,7 @@ func c19First(rules [][]string, keep func(r []string) bool) [][]string {
 
 // c19Run applies the log to len(steps[0].Bits) fresh replicas, observing from step `from` on.
 // agree: the replicas must agree with each other (no injected failure, no UpdateFiltered).
-// digest: one line per (step, replica) carrying the MD5 of all its observables (thorough tier).
+// digest: one line per case carrying the MD5 of all its observables (thorough tier).
 func c19Run(c *Ctx, id string, u c19Uni, steps []c19Step, from int, agree bool, digest bool) (nontrivial bool) {
 	nrep := len(steps[0].Bits)
 	c.Case(id, fmt.Sprintf("%s (from %d) (digest %s) (ops %s)", u.header(), from, B(digest), c19LogSx(steps)))
@@ -363,6 +364,10 @@ func c19Run(c *Ctx, id string, u c19Uni, steps []c19Step, from int, agree bool, 
 		reps[i] = c19NewReplica(u.conf)
 	}
 	replay := func() string { return fmt.Sprintf("model=%s ops=%s", u.conf.Name, c19LogSx(steps)) }
+	sum := md5.New()
+	if digest {
+		defer func() { c.Obs(id, "all", fmt.Sprintf("%x", sum.Sum(nil))) }()
+	}
 	for k, st := range steps {
 		o := st.Op
 		c.Count(o.Kind)
@@ -401,9 +406,9 @@ func c19Run(c *Ctx, id string, u c19Uni, steps []c19Step, from int, agree bool, 
 			if k >= from {
 				pre := fmt.Sprintf("%d.%d.", k, i)
 				if digest {
-					all := []string{res, adlog, r.A.contentKey(), after.listed}
+					all := []string{pre, res, adlog, r.A.contentKey(), after.listed}
 					all = append(append(all, after.links...), after.dec)
-					c.Obs(id, pre+"all", fmt.Sprintf("%x", md5.Sum([]byte(strings.Join(all, "\n")))))
+					sum.Write([]byte(strings.Join(all, "\n") + "\n"))
 				} else {
 					c.Obs(id, pre+"res", res)
 					c.Obs(id, pre+"adlog", adlog)
@@ -578,7 +583,7 @@ func c19RandomLog(c *Ctx, u c19Uni, maxLen int, nrep int, withFiltered bool, wit
 
 func init() {
 	register("C19", func(c *Ctx) {
-		c.Rule = "three real DistributedEnforcer replicas (persist always / never / seeded coin) over recording set-semantics adapters apply the same log of *Self calls. (0) fixed witnesses (F02 links and memoised g() results after ClearPolicySelf, a fully replayed log, a refused batch update); (1) exhaustive: every log of length <= 3 (thorough: 4 on the RBAC model) over an alphabet of 25 (RBAC: p, p2, g, g2) / 23 (domain model) calls with repeated and overlapping batches on a 4-rule universe per type, observed after its last call; (2) seeded random logs of <= 12 calls (random batches with repetition, replayed entries, empty batches, unknown type), observed after every call; (3) single persisting replica with injected adapter failures; (4) single persisting replica with UpdateFilteredPoliciesSelf. Logs stay inside the guards (F08: update targets not listed). Distinct = (model, log); non-trivial = the log contains a call that changes memory or reports a non-empty result."
+		c.Rule = "three real DistributedEnforcer replicas (persist always / never / seeded coin) over recording set-semantics adapters apply the same log of *Self calls. (0) fixed witnesses (F02 links and memoised g() results after ClearPolicySelf, a fully replayed log, a refused batch update); (1) exhaustive: every log of length <= 3 (thorough: also length 4 on the RBAC model for logs starting with an AddPoliciesSelf) over an alphabet of 25 (RBAC: p, p2, g, g2) / 23 (domain model) calls with repeated and overlapping batches on a 4-rule universe per type, observed after its last call; (2) seeded random logs of <= 12 calls (random batches with repetition, replayed entries, empty batches, unknown type), observed after every call; (3) single persisting replica with injected adapter failures; (4) single persisting replica with UpdateFilteredPoliciesSelf. Logs stay inside the guards (F08: update targets not listed). Distinct = (model, log); non-trivial = the log contains a call that changes memory or reports a non-empty result."
 		unis := []c19Uni{c19RBAC(), c19Domain()}
 		// (0) fixed witnesses, observed after every call on the three replicas
 		for ui, u := range unis {
@@ -603,8 +608,8 @@ func init() {
 			if !c.Thorough() && ui == 1 {
 				depth = 2
 			}
-			var rec func(path []int)
-			rec = func(path []int) {
+			var rec func(path []int, maxLen int)
+			rec = func(path []int, maxLen int) {
 				if len(path) > 0 {
 					// replay on a scratch replica to evaluate the guards
 					scratch := c19NewReplica(u.conf)
@@ -626,13 +631,19 @@ func init() {
 						c.NonTrivial(id)
 					}
 				}
-				if len(path) < depth {
+				if len(path) < maxLen {
 					for ai := range al {
-						rec(append(append([]int(nil), path...), ai))
+						ml := maxLen
+						if len(path) == 0 && ml == 4 && al[ai].Kind != "add" {
+							// length 4 only for logs that start by changing the empty enforcer; a log whose
+							// first call is a no-op on memory is covered up to length 3
+							ml = 3
+						}
+						rec(append(append([]int(nil), path...), ai), ml)
 					}
 				}
 			}
-			rec(nil)
+			rec(nil, depth)
 		}
 		// (2) random logs, three replicas
 		nrand := 400
